@@ -208,6 +208,11 @@ func c15Check(ci interface{}) lib.Outcome {
 				}
 			}
 		}
+		if len(text) > 9000 {
+			// NearestMatch diffs the whole query against every similarly long license at character level; for long
+			// queries such a diff can come near go-diff's 1 s wall-clock deadline on a busy machine (DESIGN 3.4)
+			continue
+		}
 		na, nb := a.NearestMatch(text), b.NearestMatch(text)
 		if (na == nil) != (nb == nil) {
 			return lib.Outcome{Violation: fmt.Sprintf("%s, query %d (%s): NearestMatch nil-ness differs", desc, qi, qdesc)}
